@@ -44,7 +44,7 @@ P = {
    text="All grids of 1..3 axes from a menu of edge sets (incl. zero-bin, unsorted, duplicate edges), all insertion sequences of observations from every region class (below, on each edge, inside each bin, above) up to depth 7-8 (9-10; 5 (7) for three-axis grids): counts equal the reference map after every step, rejected inserts change nothing, counts shape equals grid shape, matrix form equals incremental form in both memory orders. Edge lists reach Edges through Vec, fresh Array1 and narrowed / stepped owned Array1, rotating per axis. Grids with a 12-edge axis (depth 4/3/2). E1 part: every ordered pair of five short edge lists x every integer point of (-1..9)^2 as an owned array, a reversed view and a stepped view, one insert into a fresh histogram.",
    note="Exhaustive to the stated depth over the action menu; canonicalisation is exact because Histogram has only (grid, counts) as state.", ref="4/C11"),
  "C12": dict(engine=E1, technique="exhaustive enumeration of all small data sets over awkward-value alphabets x 5 strategies, plus every n up to 10^4 over a (min,max,quartile) menu, with a termination watchdog; edge laws checked on the real build()/n_bins()",
-   text="All arrays of length 1..6 over integer and N64 alphabets, every n <= 2000 (10^4) for Sqrt/Rice/Sturges and n <= 600 + sparse for FD/Auto over a menu of (min,max) pairs incl. adjacent floats and huge offsets; integer data in the upper part of the type range (u8, i16, i32, u32); GridBuilder + histogram totals in 1..3 columns. Pairs whose range added back to the minimum overshoots the maximum; integer data with an IQR of one unit; the last bin must start at or below the maximum (tolerance-free); a strategy accepting data with a non-positive width is a violation.",
+   text="All arrays of length 1..6 over integer and N64 alphabets, every n <= 2000 (10^4) for Sqrt/Rice/Sturges and n <= 600 + sparse for FD/Auto over a menu of (min,max) pairs incl. adjacent floats and huge offsets; integer data in the upper part of the type range (u8, i16, i32, u32); GridBuilder + histogram totals in 1..3 columns. Pairs whose range added back to the minimum overshoots the maximum; integer data with an IQR of one unit; the last bin must start at or below the maximum (tolerance-free); a strategy accepting data with a non-positive width is a violation. Every small data set is also presented as reversed / stepped views of a sentinel-filled parent and must give the same strategy (verdict, width, minimum, maximum) as the owned array.",
    note="Exhaustive over the alphabet / parameter menu; a stalled call is reported by a watchdog after 60 s.", ref="4/C12"),
  "C13": dict(engine=E1, technique="exhaustive enumeration of every edge collection up to 5 elements (complete by the comparison-only argument) x all probe classes, against a linear-scan reference; all Grid index tuples",
    text="Every sequence of length 0..6 (7) over 6 values, via From<Vec> and From<Array1> (fresh, narrowed, stepped, reversed owned arrays), probes below/on/between/above every edge, i32 and N64; Bins and Grid accessors cross-checked with points presented as owned arrays and reversed / stepped views. NotNone<i32> (the crate's own ordered wrapper) as element type, judged through a key projection. Grids assembled from pushed Vecs (spare capacity).",
